@@ -55,7 +55,7 @@ PROPS["C01"] = dict(
     run_files=["Run/FsmRun.v", "Run/ApiRun.v"],
     engines=[dict(cmd=["api"], corr="Model.Api.{impl_step: validators of Model.Validate + table lookup + request->Command + CommandResult->response over Model.Fsm.Update/f_lookup} <-> regattaserver.KVServer.{Range,IterateRange,Put,DeleteRange,Txn} over storage.Engine (real NodeHost) -> table.ActiveTable -> fsm.FSM", timeout=900),
              dict(cmd=["c01"], corr="Model.Fsm.{Update,f_lookup,f_iterator_lookup,local_index,leader_index} <-> fsm.FSM.Update/Lookup")],
-    level_text="Refinement theorem for all scenarios (any interleaving of apply batches, reads, iterator reads, read-only transactions, index reads, reopen): the implementation-level model over the encoded Pebble key space produces exactly the outputs of a plain sorted map applying the commands one after another, and its bookkeeping is invisible; the model is compared with the real fsm.FSM (Pebble on MemFS) on random histories, and the specification itself is evaluated on the implementation's outputs.",
+    level_text="Refinement theorem for all scenarios (any interleaving of apply batches, reads, iterator reads, read-only transactions, index reads, reopen): the implementation-level model over the encoded Pebble key space produces exactly the outputs of a plain sorted map applying the commands one after another, and its bookkeeping is invisible; the model is compared with the real fsm.FSM (Pebble on MemFS) on random histories, and the specification itself is evaluated on the implementation's outputs. API level (Model/Api.v, theorem C01_api_refines): every response of every request sequence sent through KVServer -> Engine -> ActiveTable to freshly created tables equals the response of the same API over plain sorted maps; the API model is compared with a real regattaserver.KVServer over a real storage.Engine (engine 'api').",
     level_note="Trusts: Coq kernel; genconst; Pebble-as-sorted-map abstraction (validated by every correspondence case, not proved); correspondence run; range deletes with prev_kv over >= 4MiB-1KiB of data are outside the statement (known finding).",
     technique="Coq proof (parametricity of the command handlers in the store + representation invariant, induction over scenarios) + differential correspondence check against fsm.FSM on Pebble/MemFS",
     trusted=_FSM_TRUSTED,
@@ -104,7 +104,7 @@ PROPS["C02"] = dict(
     engines=[dict(cmd=["api"], corr="Model.Api.{impl_step: validators of Model.Validate + table lookup + request->Command + CommandResult->response over Model.Fsm.Update/f_lookup} <-> regattaserver.KVServer.{Range,IterateRange,Put,DeleteRange,Txn} over storage.Engine (real NodeHost) -> table.ActiveTable -> fsm.FSM", timeout=900),
              dict(cmd=["c02"], corr="Model.Cmd.{handle_txn,txn_compare,txn_ops,lookup_txn} via Model.Fsm.Update/f_lookup_txn <-> fsm.handleTxn, txnCompare, handleTxnOps, FSM.Lookup(TxnRequest)"),
              dict(cmd=["c10", "--txn"], summary="c10", corr="Model.Fsm (transactions) <-> table.ActiveTable.Txn over a simulated Raft host with real fsm.FSM replicas (the table layer between the API and the state machine)", timeout=900)],
-    level_text="Theorems for all predicate and operation lists: branch selection by the conjunction of predicates on the pre-state (declarative semantics of single-key and range predicates), in-order execution with one response per operation, read-only transactions equal the read-only path and leave the state unchanged, and the encoded-store transaction equals the plain-map transaction at any position of any scenario; compared with the real FSM on transaction-heavy histories.",
+    level_text="Theorems for all predicate and operation lists: branch selection by the conjunction of predicates on the pre-state (declarative semantics of single-key and range predicates), in-order execution with one response per operation, read-only transactions equal the read-only path and leave the state unchanged, and the encoded-store transaction equals the plain-map transaction at any position of any scenario; compared with the real FSM on transaction-heavy histories. API level: a read-only transaction (never proposed) answers what proposing it would have answered and proposing it would not change the content (C02_api_readonly_txn_as_if_proposed); compared with the real KVServer over a real Engine (engine 'api').",
     level_note="Trusts: Coq kernel; Pebble indexed batch/snapshot modelled as a working copy of the sorted map; correspondence run. Crash atomicity of the single commit is C04's.",
     technique="Coq proof (parametricity of handlers in the store, induction over operation lists) + differential correspondence check against fsm.FSM",
     trusted=_FSM_TRUSTED, label=fsm_label,
@@ -141,7 +141,7 @@ PROPS["C10"] = dict(
     run_files=["Run/FsmRun.v", "Run/C10Run.v", "Mutants/LinearMutants.v", "Run/ApiRun.v"],
     engines=[dict(cmd=["api"], corr="Model.Api.{impl_step: validators of Model.Validate + table lookup + request->Command + CommandResult->response over Model.Fsm.Update/f_lookup} <-> regattaserver.KVServer.{Range,IterateRange,Put,DeleteRange,Txn} over storage.Engine (real NodeHost) -> table.ActiveTable -> fsm.FSM", timeout=900),
              dict(cmd=["c10"], corr="Model.Linear + Model.Fsm <-> table.ActiveTable.{Put,Delete,Txn,Range} over a simulated Raft host with real fsm.FSM replicas; Model.Linear serve_at/engine paths <-> storage.Engine.{Range,IterateRange,Txn} on a real three-node cluster with held apply loops")],
-    level_text="Theorems: every API mutation (incl. a transaction with an empty executed branch) reports revision = its log index, revisions of a log are its indices in order, a replica with k >= a applied entries contains all a acknowledged writes, serializable reads answer from a prefix state; the read-path choice of the table layer is checked on the real table.ActiveTable with a simulated Raft host (three real FSM replicas, seed-chosen lag and batching), whose responses are also compared with the model and the specification; a range read delivered in several messages with a transaction applied between two of them must be one state; two identical linearizable reads overlapping an acknowledged write (the later one must see it); an error from the table layer for a committed request is a violation. Engine layer (storage/engine.go): theorems that a linearizable Range/IterateRange and every read-only transaction, on a leader or a follower at any lag, is served from a state including every acknowledged write (the leader-answers-locally variant refuted in Mutants/LinearMutants.v); three real storage.Engines on loopback with one three-replica table: the apply loop of each replica in turn - so also the leader's - is held behind a write acknowledged through another replica, the held replica is asked for linearizable Range, IterateRange and a read-only Txn (no answer is fine, an answer without the write is a violation; released while a read waits, the read answers with the write), every read compared with the model's serving position.",
+    level_text="Theorems: every API mutation (incl. a transaction with an empty executed branch) reports revision = its log index, revisions of a log are its indices in order, a replica with k >= a applied entries contains all a acknowledged writes, serializable reads answer from a prefix state; the read-path choice of the table layer is checked on the real table.ActiveTable with a simulated Raft host (three real FSM replicas, seed-chosen lag and batching), whose responses are also compared with the model and the specification; a range read delivered in several messages with a transaction applied between two of them must be one state; two identical linearizable reads overlapping an acknowledged write (the later one must see it); an error from the table layer for a committed request is a violation. Engine layer (storage/engine.go): theorems that a linearizable Range/IterateRange and every read-only transaction, on a leader or a follower at any lag, is served from a state including every acknowledged write (the leader-answers-locally variant refuted in Mutants/LinearMutants.v); three real storage.Engines on loopback with one three-replica table: the apply loop of each replica in turn - so also the leader's - is held behind a write acknowledged through another replica, the held replica is asked for linearizable Range, IterateRange and a read-only Txn (no answer is fine, an answer without the write is a violation; released while a read waits, the read answers with the write), every read compared with the model's serving position. API level (Model/Api.v): every acknowledged mutation sent through the API is answered with exactly the log position of its proposal, which is the table's applied index afterwards; the non-zero revisions along any request sequence strictly increase; reads and read-only transactions move nothing (C10_api_*); engine 'api' checks on a real Engine that revisions are non-zero, increasing and equal to the applied index.",
     level_note="Trusts: Coq kernel; dragonboat's ReadIndex contract is an explicit assumption (embodied by the simulated host); concurrency between clients is represented by the commit order only (sequential client scripts); Pebble-as-sorted-map.",
     technique="Coq proof (prefix/append lemmas over spec_entries) + simulated-Raft-host differential check through table.ActiveTable",
     trusted=_FSM_TRUSTED + ["simulated Raft host in the harness (harness/c10.go) standing for dragonboat NodeHost (the three-engine cluster of harness/c10cluster.go runs the real one)"], label=fsm_label,
@@ -191,7 +191,7 @@ PROPS["C11"] = dict(
     run_files=["Run/C11Run.v", "Run/C05Run.v"],
     engines=[dict(cmd=["c11"], corr="Model.Queue.step + Model.Heap <-> storage.IndexNotificationQueue.Run, util/heap", timeout=900),
              dict(cmd=["c05", "--variant", "large backlog"], summary="c05", corr="what the apply path reports to the queue: a follower proposal is tagged with the leader index of its last command (Model.Replication.follows) <-> replication.worker.proposeBatch", timeout=900)],
-    level_text="Heap ORDER invariant proved (New establishes it, Push and Pop keep it, the root is a minimum), carried over the whole table map for every completed event sequence, hence promptness: after a handled notification of leader index r nobody in that table's queue waits for a revision <= r. Theorems over all event sequences (adds with any revisions and tables, cancellations, notifications, sweeps, caller reads, length queries), per handler AND composed over the whole table map (GInv: C11_loop_never_wedges - from the initial state every event sequence with fresh waiter ids is handled to the end): no handler ever blocks or panics, every waiter receives at most one answer, an OK answer is preceded by a notification at or beyond the waiter's revision, an error answer by its cancellation, and a sweep leaves no cancelled waiter behind. The real queue (real 1 s ticker) and util/heap are compared with the model on event scripts and operation sequences; a real follower engine (applied-index reports feeding the queue) is taken through an operator reset with a waiter across it.",
+    level_text="Heap ORDER invariant proved (New establishes it, Push and Pop keep it, the root is a minimum), carried over the whole table map for every completed event sequence, hence promptness: after a handled notification of leader index r nobody in that table's queue waits for a revision <= r. Theorems over all event sequences (adds with any revisions and tables, cancellations, notifications, sweeps, caller reads, length queries), per handler AND composed over the whole table map (GInv: C11_loop_never_wedges - from the initial state every event sequence with fresh waiter ids is handled to the end): no handler ever blocks or panics, every waiter receives at most one answer, an OK answer is preceded by a notification at or beyond the waiter's revision, an error answer by its cancellation, and a sweep leaves no cancelled waiter behind. The real queue (real 1 s ticker) and util/heap are compared with the model on event scripts and operation sequences; a real follower engine (applied-index reports feeding the queue) is taken through an operator reset with a waiter across it. First clause, composed (Model/Forward.v: forwarding server + replication of the leader's log + apply-path reports + the real queue): after ANY history, a call answered without error finds the node's copy equal to the result of applying a leader-log prefix of length >= its revision whose entry at the revision is the call's own command (C11_read_your_writes), with the invariant preserved by every single step (C11_forward_invariant_step).",
     level_note="Trusts: Coq kernel; Go channel/select semantics abstracted to one event at a time (a send on a full capacity-1 channel blocks the loop); that the notified index implies the write is applied rests on C05.",
     technique="Coq proof (invariant over the event-loop state machine, permutation lemmas for the array heap) + differential correspondence check against the real queue under its real ticker",
     trusted=["Model/Queue.v, Model/Heap.v hand-written models of storage/queue.go and util/heap"],
@@ -253,7 +253,7 @@ PROPS["C14"] = dict(
     design_ref="DESIGN.md section 7 (C14)",
     run_files=["Run/C14Run.v", "Mutants/CatalogueMutants.v"],
     engines=[dict(cmd=["c14"], corr="Model.Catalogue.{cexec,to_start,to_stop} <-> table.Manager.createTable/incAndGetIDSeq/DeleteTable/GetTables, diffTables", timeout=900)],
-    level_text="Theorems for every interleaving of create/delete/restore/list calls (restores incl. streams that break off and retries) of any number of managers at single-store-operation granularity: ids given to created or restored tables are pairwise distinct, every id drawn from the sequence is above every id drawn before (inductive invariant over the id sequence's compare-and-set), a restore never re-uses the recovery id an interrupted attempt left behind (refuted for the re-using variant in Mutants/CatalogueMutants.v), undisturbed it succeeds and switches the table to the new id, an existing name is refused, the three steps of a creation succeed when undisturbed, the second of two racing creations of one name fails, the second of two racing deletions fails and a restore cannot resurrect a record deleted under it (repaired compare-and-set); a catalogue replica caught up by a snapshot agrees with the leader; '.' and '..' are names like any other; listing is exact and its key pattern selects the record of every table whose name is a path segment and nothing deeper (leases, the id sequence; different names have different records - theorems over all names, the key a real createTable writes first and GetTables' answer compared per name), diffTables starts/stops exactly the right shards, per-id isolation of table data. Real managers run over the real kv.LFSM CAS semantics behind a scheduler (all interleavings of call pairs + random schedules, incl. Restore with complete and interrupted streams; two waiting writes optionally applied by ONE LFSM.Update call; every listing compared with the records present at that moment), real diffTables on random inputs (against the model and a set oracle), and a real Manager on a NodeHost for emptiness of recreated tables, isolation, slash and prefix names, and a restore after an interrupted restore (new id, stream content only).",
+    level_text="Theorems for every interleaving of create/delete/restore/list calls (restores incl. streams that break off and retries) of any number of managers at single-store-operation granularity: ids given to created or restored tables are pairwise distinct, every id drawn from the sequence is above every id drawn before (inductive invariant over the id sequence's compare-and-set), a restore never re-uses the recovery id an interrupted attempt left behind (refuted for the re-using variant in Mutants/CatalogueMutants.v), undisturbed it succeeds and switches the table to the new id, an existing name is refused, the three steps of a creation succeed when undisturbed, the second of two racing creations of one name fails, the second of two racing deletions fails and a restore cannot resurrect a record deleted under it (repaired compare-and-set); a catalogue replica caught up by a snapshot agrees with the leader; '.' and '..' are names like any other; listing is exact and its key pattern selects the record of every table whose name is a path segment and nothing deeper (leases, the id sequence; different names have different records - theorems over all names, the key a real createTable writes first and GetTables' answer compared per name), diffTables starts/stops exactly the right shards, per-id isolation of table data. Real managers run over the real kv.LFSM CAS semantics behind a scheduler (all interleavings of call pairs + random schedules, incl. Restore with complete and interrupted streams; two waiting writes optionally applied by ONE LFSM.Update call; every listing compared with the records present at that moment), real diffTables on random inputs (against the model and a set oracle), and a real Manager on a NodeHost for emptiness of recreated tables, isolation, slash and prefix names, and a restore after an interrupted restore (new id, stream content only). API level: a request addressed to one table leaves the stored form of every other table untouched and the key-value API never changes the set of tables (C14_api_*).",
     level_note="Trusts: Coq kernel; genconst (tableIDsRangeStart); table names are path segments (names with '/' are rejected by the repaired code); emptiness of a new table rests on dragonboat giving a fresh shard id a fresh state machine directory (exercised on a real NodeHost, not proved); Restore's catalogue steps are part of the model and run interleaved with the other managers' calls on a real NodeHost (one per case); what the recovery shard then contains is C07's theorem.",
     technique="Coq proof (inductive invariant over an interleaving semantics of store programs, permutation reasoning on pending ids) + scheduler-controlled differential check of table.Manager",
     trusted=["Model/Catalogue.v hand-written model of the catalogue programs in storage/table/manager.go"],
@@ -266,7 +266,7 @@ PROPS["C16"] = dict(
     run_files=["Run/C16Run.v", "Run/ApiRun.v"],
     engines=[dict(cmd=["api"], corr="Model.Api.{impl_step: validators of Model.Validate + table lookup + request->Command + CommandResult->response over Model.Fsm.Update/f_lookup} <-> regattaserver.KVServer.{Range,IterateRange,Put,DeleteRange,Txn} over storage.Engine (real NodeHost) -> table.ActiveTable -> fsm.FSM", timeout=900),
              dict(cmd=["c16"], corr="Model.Validate.{range_status,put_status,del_status,txn_status,create_status,delete_status} <-> regattaserver.KVServer/TablesServer/ReadonlyTablesServer + table.ActiveTable validators", timeout=900)],
-    level_text="Theorems over all requests (reduced to the features the validators inspect): every documented constraint yields its status class, an accepted request satisfies all of them, and the key/value limits hold on every path that can create a record including operations nested in transactions. The real KVServer + table.ActiveTable (over a simulated Raft host with real state machines) and the tables servers are run on an enumerated grid of field combinations and a malformed stream; status codes are compared with the model, the table content is read back after every rejection, panics are caught and reported; the routing of transactions to the read path (TxnRequest.IsReadonly: only when both branches hold nothing but range reads - theorem and enumerated comparison); requests with extreme numeric fields run in a child process whose death is reported with the request it announced last; unknown tables with non-UTF-8 or control-character names are unknown tables; on a real storage.Engine, names that only resemble the path of a table ('demo/', './demo', 'x/../demo') are unknown tables too.",
+    level_text="Theorems over all requests (reduced to the features the validators inspect): every documented constraint yields its status class, an accepted request satisfies all of them, and the key/value limits hold on every path that can create a record including operations nested in transactions. The real KVServer + table.ActiveTable (over a simulated Raft host with real state machines) and the tables servers are run on an enumerated grid of field combinations and a malformed stream; status codes are compared with the model, the table content is read back after every rejection, panics are caught and reported; the routing of transactions to the read path (TxnRequest.IsReadonly: only when both branches hold nothing but range reads - theorem and enumerated comparison); requests with extreme numeric fields run in a child process whose death is reported with the request it announced last; unknown tables with non-UTF-8 or control-character names are unknown tables; on a real storage.Engine, names that only resemble the path of a table ('demo/', './demo', 'x/../demo') are unknown tables too. End to end (Model/Api.v: the validators applied to the actual request, table lookup, request->Command, CommandResult->response, over the state machine): a refused request leaves the database the same VALUE (C16_refused_request_has_no_effect), reads have no effect, the key/value limits are an invariant of every table over every request sequence (C16_limits_are_an_invariant), and the API over encoded state machines equals the API over plain maps (C16_api_refines); compared with the real KVServer over a real storage.Engine on request sequences with a malformed stream mixed in (engine 'api').",
     level_note="PARTIAL: 'no request terminates the process' is exercised (enumerated grid + random garbage, panics caught), not proved - a theorem about total Gallina validators says nothing about Go panics. Requests are called on the server objects directly, not through a network listener (gRPC decoding is C18's codec). storage.Engine's table routing is re-implemented in the harness (three lines per method).",
     technique="Coq proof (case analysis of the validator decision functions) + enumerated differential check of the real servers' status codes and effects",
     trusted=["Model/Validate.v hand-written model of the validators in regattaserver/kv.go, tables.go and storage/table/table.go"],
